@@ -1059,9 +1059,9 @@ func c08DeepGen(r *Rand, tier string) []string {
 	rep := strings.Repeat
 	depths := []int{2, 10, 40, 120}
 	longs := []int{100, 3000}
-	if tier == "thorough" {
-		depths = append(depths, 300)
-		longs = append(longs, 30000)
+	if tier == "thorough" { // the model costs about depth^3: 120 is a third of a second per case, 300 four seconds
+		depths = append(depths, 160)
+		longs = append(longs, 8000) // the model is quadratic in the template length as well
 	}
 	inner := []string{"x", "{0}", "{k}", "\x00", "\xff\xfe", "\"\x00\"", "{\x00}", "{9223372036854775807}", "\\", "{", ""}
 	for _, d := range depths {
@@ -1071,6 +1071,9 @@ func c08DeepGen(r *Rand, tier string) []string {
 			}
 			el := []string{Pick(r, []string{"v", "", "\x00", "\xff"})}
 			add(rep("{coalesce ", d)+in+rep("}", d), el)
+			if d > 120 { // one shape is enough at the largest depth
+				continue
+			}
 			add(rep("{if 1 ", d)+in+rep("}", d), el)
 			add(rep("{@len ", d)+in+rep("}", d), el)
 			add(rep("{sumi 1 ", d)+in+rep("}", d), el)
